@@ -1,6 +1,7 @@
 SPECIFICATION MCSpec
 CONSTANT L = 6
 CONSTANT Kind = "IN"
+CONSTANT LOBound = "asis"
 VIEW View
 INVARIANT Ok
 INVARIANT Inv
